@@ -41,6 +41,11 @@ CHECKS["C10"] = dict(
    text="Theorems in coq/theories/Props/C10.v over an abstract commutative ring, for Hamiltonians of any length: trotter_evolve with k steps is k successive steps (identity for k=0, additive in k); an empty Hamiltonian is the documented error at all three entry points and a term outside the register makes the sweep fail; with the libm facts of real-coefficient terms (cosh(-ix)=cos x, sinh(-ix)=-i sin x, c*c+s*s=1) every entry point preserves inner products for every k and both orders; the second-order step with -dt undoes the step with +dt for arbitrary (non-commuting) terms; for pairwise commuting terms the product of the term exponentials (each the true exponential by C09) is independent of the term order, and Z-only strings and strings with disjoint supports commute. The correspondence runs steps / evolve / reverse through the real crate, compares with the model, and measures the distance to exp(-iHt)|psi> (Taylor series through the closed-form Hamiltonian action, evaluated in Coq) against 0 for commuting families and against the commutator bounds otherwise.",
    note="PARTIAL. (1) 'equals exp(-iHdt) when all terms commute' is proved as order-independence of the product of true term exponentials, not against a formal matrix exponential of the sum; exactness is additionally checked numerically (1e-9). (2) The rigorous product-formula bounds with constants are evaluated numerically (not formalised); the orders of accuracy are exercised at two step sizes. Float rounding not modelled.",
    design="6 C10")
+CHECKS["C11"] = dict(
+   technique="Coq proof (each builder's returned term list denotes the documented unpruned periodic Hamiltonian as an operator, for every lattice, parameters and thread count; uniform = site-specific; dimension errors) + differential correspondence inside coqc with an operator-level (merged coefficient map) verdict",
+   text="Theorems in coq/theories/Props/C11.v: the chunked parallel construction equals the plain site loop for every thread count (laws-free); over an abstract commutative ring, whenever ising_1d / ising_2d / heisenberg_1d / heisenberg_2d return Ok, the returned SumOp acts on every state vector exactly as the documented Hamiltonian written as an unpruned sum over all sites (site (r,c) on qubit r*M+c, bond to the next site in each direction with wrap-around, coefficients -J, -mu*h, resp. -J/2 and -mu*h/2) - so zero coefficients only omit terms and the 1-D/2-D variants share sign conventions; the uniform variants return the same list as the site-specific ones with constant arrays; a dimension below 2 is the documented error and anything else is accepted. The correspondence builds every shape 1-D n=0..40, 2-D (n,m) in 0..7 squared (const-generic variants through an instantiation table) with zero/negative/tiny/huge parameters under pools of 1..16(32) threads in the real crate and compares, inside Coq, the merged coefficient map with the model's and with the documented Hamiltonian's.",
+   note="The zero test `x == 0.0` is assumed to decide x = 0 (hypothesis zero_test_ok; for binary64 this holds up to the sign of zero). Defect found and repaired: heisenberg_1d field sign (fix commit 305b126).",
+   design="6 C11")
 NOT_YET = {}
 
 def main():
